@@ -603,6 +603,10 @@ func (ag *simAgent) readerLoop(node int) {
 	}
 }
 
+// Done reports whether the client library has marked the request completed (its callback may still be about
+// to run): it can no longer reach the server or be cancelled.
+func (r *SimRequest) Done() bool { return r.done }
+
 func (r *SimRequest) complete(res any, err error) {
 	if r.done {
 		return
